@@ -20,6 +20,7 @@ Definition CMD_SEL_INFO : N := 0x40.
 Definition CMD_RESERVE_SEL : N := 0x42.
 Definition CMD_GET_SEL_ENTRY : N := 0x43.
 Definition CMD_DELETE_SEL_ENTRY : N := 0x46.
+Definition CMD_CLEAR_SEL : N := 0x47.
 Definition CC_RES_CANCELED : N := 0xc5.
 Definition CC_CANT_RET : N := 0xca.
 
@@ -35,6 +36,18 @@ Definition get_entry_req (resv rid off : N) (length : Z) : request :=
 (* DeleteSelEntryReq: reservation_id(2) record_id(2) *)
 Definition delete_req (resv rid : N) : request :=
   mkReq NETFN_STORAGE CMD_DELETE_SEL_ENTRY 0 (le_bytes 2 resv ++ le_bytes 2 rid).
+
+(* ClearSelReq: reservation_id(2) key 'CLR'(3) cmd(1) *)
+Definition clear_req (resv cmd : N) : request :=
+  mkReq NETFN_STORAGE CMD_CLEAR_SEL 0 (le_bytes 2 resv ++ [0x43; 0x4c; 0x52] ++ le_bytes 1 cmd).
+(* ClearSelRsp: cc status(1) -> rsp.status.erase_in_progress (low nibble) *)
+Definition dec_clear (d : list N) : res N :=
+  match d with
+  | [] => Err DecodingError
+  | cc :: r =>
+      if cc =? 0 then match r with [st] => Ok (N.land st 0xf) | _ => Err DecodingError end
+      else Err (CCError cc)
+  end.
 
 (* GetSelInfoRsp: cc version(1) entries(2) free(2) addition(4) erase(4) support(1) -> entries *)
 Definition dec_sel_info (d : list N) : res N :=
@@ -67,6 +80,43 @@ Definition get_sel_entries_count : prog N := send_msg sel_info_req dec_sel_info.
 Definition get_sel_reservation_id : prog N := send_msg reserve_req dec_id16.
 (* Sel.delete_sel_entry(record_id, reservation) *)
 Definition delete_sel_entry (rid resv : N) : prog N := send_msg (delete_req resv rid) dec_id16.
+
+(* Sel._clear_sel(cmd, reservation) *)
+Definition clear_sel_cmd (cmd resv : N) : prog N := send_msg (clear_req resv cmd) dec_clear.
+
+(* helper._clear_repository(reserve_fn, clear_fn, ctrl, retry, reservation) with
+   reserve_fn = get_sel_reservation_id, clear_fn = _clear_sel.  The counter is retry - 1
+   (value after the decrement at the top of the loop body), as in Model/Helper.v:
+     retry -= 1; if retry <= 0: raise RetryError()
+     try: in_progress = clear_fn(ctrl, reservation)
+     except CompletionCodeError: 0xC5 -> sleep(0.2); reservation = reserve_fn(); continue
+                                 else check_completion_code(cc)   [cc != 0 here: raises]
+     if in_progress == 0: sleep(0.5); continue
+     break; return reservation *)
+Fixpoint clear_repository (n : nat) (ctrl resv : N) : prog N :=
+  match n with
+  | O => Raise RetryError
+  | S n' =>
+      Send (clear_req resv ctrl) (fun rp =>
+        match rp with
+        | RRaise e => Raise e
+        | RBytes d =>
+            match dec_clear d with
+            | Ok st => if st =? 0 then Sleep 500 (clear_repository n' ctrl resv) else Ret resv
+            | Err (CCError cc) =>
+                if cc =? CC_RES_CANCELED
+                then Sleep 200 (dop r <- get_sel_reservation_id; clear_repository n' ctrl r)
+                else Raise (CCError cc)
+            | Err e => Raise e
+            end
+        end)
+  end.
+(* Sel.clear_sel(retry=5) = helper.clear_repository_helper(get_sel_reservation_id, _clear_sel, retry):
+   reserve; initiate erase (0xAA); sleep(0.5); poll the erase status (0x00) *)
+Definition clear_sel (retry : nat) : prog unit :=
+  dop r <- get_sel_reservation_id;
+  dop r1 <- clear_repository (pred retry) 0xaa r;
+  Sleep 500 (dop _ <- clear_repository (pred retry) 0 r1; Ret tt).
 
 (* ---------------------------------------------------------------------------
    SelEntry._from_response(data): 16 bytes; record id, type (0x02 or 0xC0..0xFF, else
@@ -294,6 +344,20 @@ Definition sel_handle (s : seldev) (r : request) : seldev * reply :=
                         (sd_deleted s ++ [rc]),
                RBytes (0 :: le_bytes 2 (rec_id rc)))
           end
+    | _ => (s, RBytes [0xc7])
+    end
+  else if q_cmd r =? CMD_CLEAR_SEL then
+    (* Clear SEL: key 'CLR'; 0xAA erases the whole log at once (deletion record untouched, the
+       reservation stays usable for the status poll); 0x00 reports "erase completed" *)
+    match q_data r with
+    | [r0; r1; k0; k1; k2; cmd] =>
+        let resv := r0 + 256 * r1 in
+        if negb ((k0 =? 0x43) && (k1 =? 0x4c) && (k2 =? 0x52)) then (s, RBytes [0xcc])
+        else if negb (resv_ok s resv) then (s, RBytes [CC_RES_CANCELED])
+        else if cmd =? 0xaa then
+          (mkSelDev [] (sd_limit s) (sd_resv s) true (sd_plan s) (sd_deleted s), RBytes [0; 1])
+        else if cmd =? 0 then (s, RBytes [0; 1])
+        else (s, RBytes [0xcc])
     | _ => (s, RBytes [0xc7])
     end
   else (s, RBytes [0xc1]).
